@@ -13,260 +13,27 @@
 //   Two input classes are reported under their own assertion ids (see notes/C20.md):
 //     C20.empty_tick_reproduced                   - A ticks with an EMPTY set/dict delta while already valid
 //     C20.unticked_collection_field_stays_invalid - TSB with a set/dict field that never ticked
-#include "hk.h"
-
-#include <hgraph/types/time_series/ts_delta.h>
-#include <hgraph/types/time_series/ts_input.h>
-#include <hgraph/types/time_series/ts_output.h>
+#include "hk_c20.h"  // shapes, producer-side history drivers, bound macros NPRIM / NPRIM5 / NKEYS / VMAX
 
 #include <cstdio>
 
 #ifndef NCYC
 #define NCYC 3  // cycles (ticks or gaps)
 #endif
-#ifndef NPRIM
-#define NPRIM 2  // key-set primitives per root-level keyed collection per cycle (nested collections: 1)
-#endif
-#ifndef NPRIM5
-#define NPRIM5 1  // primitives per cycle at the root of the nested TSD<int,TSS<int>> shape
-#endif
-#ifndef NKEYS
-#define NKEYS 2  // concrete key universe {1..NKEYS}
-#endif
 #ifndef SHAPES
-#define SHAPES 0x1ff  // bit i enables shape i (see shape_schema)
-#endif
-#ifndef VMAX
-#define VMAX 1000
+#define SHAPES 0x1ff  // bit i enables shape i (see hk_c20.h shape_schema)
 #endif
 
 using namespace hk;
 
 namespace {
-using BundleSet = TSB<"C20BundleSet", Field<"a", TS<Int>>, Field<"s", TSS<Int>>>;
-using BundleDict = TSB<"C20BundleDict", Field<"d", TSD<Int, TS<Int>>>, Field<"x", TS<Int>>>;
-constexpr int NSHAPES = 9;
-
-const TSValueTypeMetaData *shape_schema(int shape) {
-    switch (shape) {
-        case 0: return schema_descriptor<TS<Int>>::ts_meta();
-        case 1: return schema_descriptor<TSS<Int>>::ts_meta();
-        case 2: return schema_descriptor<TSD<Int, TS<Int>>>::ts_meta();
-        case 3: return schema_descriptor<TSL<TS<Int>, 2>>::ts_meta();
-        case 4: return schema_descriptor<BundleSet>::ts_meta();
-        case 5: return schema_descriptor<TSD<Int, TSS<Int>>>::ts_meta();
-        case 6: return schema_descriptor<BundleDict>::ts_meta();
-        case 7: return schema_descriptor<TSW<Int, 2, 1>>::ts_meta();
-        default: return schema_descriptor<TSL<TS<Int>>>::ts_meta();  // dynamic list
-    }
-}
-
-bool g_empty_tick = false;   // a collection got an empty tick (touch / no-op add / no-op remove) while already valid
-bool g_readd = false;        // a key removed and re-added in one cycle
-bool g_add_remove = false;   // a key added and removed again in one cycle
-bool g_removed = false;      // a live key removed
-bool g_child_only = false;   // only a child of an existing TSD key / TSB field / TSL element ticked
-
-Value key_value(int k) { return Value{Int{k}}; }
-Int sym_val() { return verif_range("v", -VMAX, VMAX); }
-
-// ---- drivers: ordinary producer-side mutation of A (never through apply_delta) -------------------
-void drive(const TSOutputView &out, DateTime t, bool nested);
-
-void drive_ts(const TSOutputView &out, DateTime t) {
-    Value v{sym_val()};
-    auto m = out.begin_mutation(t);
-    (void)m.copy_value_from(v.view());
-}
-
-// key-set primitives on a TSS: 0 none, 1..NKEYS add k, NKEYS+1..2NKEYS remove k, 2NKEYS+1 touch
-// (must: the first primitive is not "none" - the element of a TSD key always ticks when it is upserted)
-void drive_tss(const TSOutputView &out, DateTime t, int nprim, bool must = false) {
-    auto set = out.as_set();
-    bool added_now[NKEYS + 1] = {}, removed_now[NKEYS + 1] = {};
-    for (int p = 0; p < nprim; p++) {
-        int op = (must && p == 0) ? 1 + verif_choice("sop1", 2 * NKEYS + 1) : verif_choice("sop", 2 * NKEYS + 2);
-        if (op == 0) break;
-        bool was_valid = out.valid();
-        auto m = set.begin_mutation(t);
-        if (op <= NKEYS) {
-            int k = op;
-            Value kv = key_value(k);
-            bool did = m.add(kv.view());
-            if (did && removed_now[k]) g_readd = true;
-            if (did) added_now[k] = true;
-            if (!did && was_valid) g_empty_tick = true;
-        } else if (op <= 2 * NKEYS) {
-            int k = op - NKEYS;
-            Value kv = key_value(k);
-            bool did = m.remove(kv.view());
-            if (did && added_now[k]) g_add_remove = true;
-            if (did && !added_now[k]) g_removed = true;
-            if (did) removed_now[k] = true;
-            if (!did && was_valid) g_empty_tick = true;
-        } else {
-            m.touch();
-            if (was_valid) g_empty_tick = true;
-        }
-    }
-}
-
-// TSD primitives: 0 none, 1..NKEYS upsert k (element driven recursively), NKEYS+1..2NKEYS erase k, 2NKEYS+1 touch
-void drive_tsd(const TSOutputView &out, DateTime t, int nprim) {
-    auto dict = out.as_dict();
-    const bool child_is_set = out.schema()->element_ts()->kind == TSTypeKind::TSS;
-    bool removed_now[NKEYS + 1] = {}, added_now[NKEYS + 1] = {};
-    for (int p = 0; p < nprim; p++) {
-        int op = verif_choice("dop", 2 * NKEYS + 2);
-        if (op == 0) break;
-        bool was_valid = out.valid();
-        auto m = dict.begin_mutation(t);
-        if (op <= NKEYS) {
-            int k = op;
-            Value kv = key_value(k);
-            bool existed = dict.contains(kv.view());
-            if (existed) g_child_only = true;
-            if (!existed && removed_now[k]) g_readd = true;
-            if (!existed) added_now[k] = true;
-            auto child = m.at(kv.view());
-            TSOutputView cv{out.output(), child, t};
-            if (child_is_set) drive_tss(cv, t, 1, true); else drive_ts(cv, t);
-        } else if (op <= 2 * NKEYS) {
-            int k = op - NKEYS;
-            Value kv = key_value(k);
-            bool did = m.erase(kv.view());
-            if (did && added_now[k]) g_add_remove = true;
-            if (did && !added_now[k]) g_removed = true;
-            if (did) removed_now[k] = true;
-        } else {
-            m.touch();
-            if (was_valid) g_empty_tick = true;
-        }
-    }
-}
-
-void drive_indexed(const TSOutputView &out, DateTime t) {
-    const std::size_t n = out.data_view().indexed_child_count();
-    bool was_valid = out.valid();
-    int ticked = 0;
-    for (std::size_t i = 0; i < n; i++) {
-        auto child = out.indexed_child_at(i);
-        const auto ck = child.schema()->kind;
-        if (ck == TSTypeKind::TS) {
-            if (!verif_bool("child")) continue;
-            drive_ts(child, t);
-            ticked++;
-        } else {
-            drive(child, t, true);
-            if (child.modified()) ticked++;
-        }
-    }
-    if (was_valid && ticked == 1) g_child_only = true;
-}
-
-void drive_dynamic_list(const TSOutputView &out, DateTime t) {
-    // dynamic TSL<TS<int>>: tick element 0 and/or 1 (the list grows on first access; no holes)
-    int which = verif_choice("elems", 4);
-    auto list = out.as_list();
-    for (std::size_t i = 0; i < 2; i++) {
-        if (!((which >> i) & 1)) continue;
-        if (i > list.size()) continue;
-        auto child = list.at(i);
-        drive_ts(child, t);
-    }
-}
-
-void drive_window(const TSOutputView &out, DateTime t) {
-    if (!verif_bool("tick")) return;
-    Value v{sym_val()};
-    auto w = out.as_window();
-    w.begin_mutation(t).push(v.view());
-}
-
-void drive(const TSOutputView &out, DateTime t, bool nested) {
-    const auto *schema = out.schema();
-    switch (schema->kind) {
-        case TSTypeKind::TS:
-            if (verif_bool("tick")) drive_ts(out, t);
-            break;
-        case TSTypeKind::TSS: drive_tss(out, t, nested ? 1 : NPRIM); break;
-        case TSTypeKind::TSD: drive_tsd(out, t, nested ? 1 : (schema->element_ts()->kind == TSTypeKind::TSS ? NPRIM5 : NPRIM)); break;
-        case TSTypeKind::TSW: drive_window(out, t); break;
-        case TSTypeKind::TSL:
-            if (schema->fixed_size() == 0) { drive_dynamic_list(out, t); break; }
-            drive_indexed(out, t);
-            break;
-        default: drive_indexed(out, t); break;
-    }
-}
-
-// ---- classification of the two reported input classes --------------------------------------------
-bool set_delta_empty(const ValueView &d) {
-    auto b = d.as_bundle();
-    return b.at(0).as_indexed_view().size() == 0 && b.at(1).as_indexed_view().size() == 0;
-}
-bool dict_delta_empty(const ValueView &d) {
-    auto b = d.as_bundle();
-    return b.at(0).as_indexed_view().size() == 0 && b.at(1).as_map().size() == 0;
-}
-struct CycleClass {
-    bool dedup = false;     // d carries an empty set/dict delta for a position that ticked in A and is already valid in B
-    bool validate = false;  // d carries an empty set/dict delta for a TSB field that never ticked in A (invalid in A and in B)
-};
-void classify(const TSValueTypeMetaData *schema, const ValueView &d, const TSInputView &a, const TSOutputView &bpre, CycleClass &cc) {
-    if (!d.has_value()) return;
-    switch (schema->kind) {
-        case TSTypeKind::TSS:
-            if (a.modified() && bpre.valid() && set_delta_empty(d)) cc.dedup = true;
-            break;
-        case TSTypeKind::TSD: {
-            if (a.modified() && bpre.valid() && dict_delta_empty(d)) cc.dedup = true;
-            auto bundle = d.as_bundle();
-            auto removed = bundle.at(0).as_indexed_view();
-            auto modified = bundle.at(1).as_map();
-            auto da = a.as_dict();
-            auto db = bpre.as_dict();
-            for (int k = 1; k <= NKEYS; k++) {
-                Value kv = key_value(k);
-                if (!modified.contains(kv.view()) || !db.contains(kv.view()) || !da.contains(kv.view())) continue;
-                bool re_created = false;
-                for (std::size_t i = 0; i < removed.size(); i++) re_created |= removed.at(i).equals(kv.view());
-                if (re_created) continue;
-                auto ca = da.at(kv.view());
-                auto cb = db.at(kv.view());
-                classify(schema->element_ts(), modified.at(kv.view()), ca, cb, cc);
-            }
-            break;
-        }
-        case TSTypeKind::TSB: {
-            auto bundle = d.as_bundle();
-            for (std::size_t i = 0; i < schema->field_count(); i++) {
-                const auto *fs = schema->fields()[i].type;
-                auto ca = a.indexed_child_at(i);
-                auto cb = bpre.indexed_child_at(i);
-                auto fd = bundle.at(i);
-                if (!fd.has_value()) continue;
-                const bool coll = fs->kind == TSTypeKind::TSS || fs->kind == TSTypeKind::TSD;
-                if (coll && !ca.valid() && !ca.modified() && !cb.valid()) { cc.validate = true; continue; }
-                if (ca.modified()) classify(fs, fd, ca, cb, cc);
-            }
-            break;
-        }
-        default: break;
-    }
-}
+using namespace hk::c20;
 
 // ---- oracle -------------------------------------------------------------------------------------
 struct Acc {
     bool same_cycles = true, valid = true, value = true, delta = true, recapture = true, children = true, children_modified = true;
     bool empty_tick = true, unticked_field = true;
 };
-
-bool views_equal(const ValueView &a, const ValueView &b) {
-    if (a.has_value() != b.has_value()) return false;
-    if (!a.has_value()) return true;
-    return a.equals(b);
-}
 
 struct ChildCmp { bool state = true, modified = true; };
 void compare_children(const TSInputView &a, const TSInputView &b, ChildCmp &c) {
